@@ -278,17 +278,17 @@ type planItem struct {
 // idxEvent: outputs of the per-index functions at a huge list size with the digests of exactly the pre-images
 // the specification hashes for these indices (forward and inverse direction).
 type idxEvent struct {
-	Ev      string     `json:"ev"`
-	N       int        `json:"n"`
-	Rounds  int        `json:"rounds"`
-	Seed    []int      `json:"seed"`
-	Hp      [][2][]int `json:"hp"` // per round <<pre-image, digest>> of the pivot hash
-	Hw      [][][]int  `json:"hw"` // <<round, window, pre-image..., >> flattened as [ [round, window], pre, digest ] triples
-	Indices []int      `json:"indices"`
-	Perm    []int      `json:"perm"`
-	Unperm  []int      `json:"unperm"`
-	Back    []int      `json:"back"` // UnpermuteIndex(PermuteIndex(i))
-	Panic   string     `json:"panic,omitempty"`
+	Ev      string            `json:"ev"`
+	N       int               `json:"n"`
+	Rounds  int               `json:"rounds"`
+	Seed    []int             `json:"seed"`
+	Hp      [][2][]int        `json:"hp"` // per round <<pre-image, digest>> of the pivot hash
+	Hw      [][][]interface{} `json:"hw"` // per round: [window, pre-image, digest] triples of the source hashes needed
+	Indices []int             `json:"indices"`
+	Perm    []int             `json:"perm"`
+	Unperm  []int             `json:"unperm"`
+	Back    []int             `json:"back"` // UnpermuteIndex(PermuteIndex(i))
+	Panic   string            `json:"panic,omitempty"`
 }
 
 // neededWindows re-states the walk of compute_shuffled_index with crypto/sha256 for ONE purpose: deciding which
@@ -323,11 +323,12 @@ func recordIdx(p planItem, enc *json.Encoder) error {
 	var seed common.Root
 	copy(seed[:], toBytes(p.Seed))
 	rounds := uint8(p.Rounds)
-	ev := idxEvent{Ev: "ShuffleIdx", N: p.N, Rounds: p.Rounds, Seed: p.Seed, Hp: [][2][]int{}, Hw: [][][]int{}, Indices: p.Indices}
+	ev := idxEvent{Ev: "ShuffleIdx", N: p.N, Rounds: p.Rounds, Seed: p.Seed, Hp: [][2][]int{}, Hw: make([][][]interface{}, p.Rounds), Indices: p.Indices}
 	for r := 0; r < p.Rounds; r++ {
 		pre := append(append([]byte{}, seed[:]...), byte(r))
 		d := sha256.Sum256(pre)
 		ev.Hp = append(ev.Hp, [2][]int{toInts(pre), toInts(d[:])})
+		ev.Hw[r] = [][]interface{}{}
 	}
 	wins := map[[2]uint64]bool{}
 	for _, i := range p.Indices {
@@ -338,7 +339,7 @@ func recordIdx(p planItem, enc *json.Encoder) error {
 		pre := append(append([]byte{}, seed[:]...), byte(w[0]), 0, 0, 0, 0)
 		binary.LittleEndian.PutUint32(pre[33:], uint32(w[1]))
 		d := sha256.Sum256(pre)
-		ev.Hw = append(ev.Hw, [][]int{{int(w[0]), int(w[1])}, toInts(pre), toInts(d[:])})
+		ev.Hw[w[0]] = append(ev.Hw[w[0]], []interface{}{int(w[1]), toInts(pre), toInts(d[:])})
 	}
 	ev.Perm = make([]int, len(p.Indices))
 	ev.Unperm = make([]int, len(p.Indices))
